@@ -373,6 +373,7 @@ func (f *Frame) havocAllExceptLocals() {
 		f.havocKeepOld(k, old, oldNext)
 	}
 	f.restorePrivate(before)
+	f.keepHeldProtected(before)
 	f.vc.assume(fmt.Sprintf("(>= %s %s)", f.vc.get(f.cur, "next"), oldNext))
 	f.assumeRely()
 }
@@ -452,14 +453,24 @@ func (f *Frame) applyContract(ct *FuncContract, fn *ssa.Function, args []Val, c 
 		if len(conj) > 0 {
 			// the callee (transitively) acquires these locks on its arguments: none may be held here
 			lbl := f.label("lock", ct.Key+":locks-not-held-at-call")
-			f.assertObl("lock", lbl, nil, f.guard, and(conj...), f.p.posString(pos))
+			f.assertObl("lock", lbl, nil, f.guard, or(noLockIfCaller(ct, env), and(conj...)), f.p.posString(pos))
 		}
 	}
 	if fn != nil {
+		nolock := noLockIfCaller(ct, env)
+		var before *State
+		if nolock != "false" {
+			before = f.cur.clone()
+		}
 		for _, il := range f.p.implicitLocks(fn) {
 			if mon := f.p.findMonitor(il.structT, il.field); mon != nil && il.param < len(args) {
 				f.interfere(mon, il.structT, args[il.param].T)
 			}
+		}
+		if before != nil {
+			// no lock taken when the condition holds: no interference either
+			f.cur = vc.mergeStates([]*State{before, f.cur}, []string{nolock, not(nolock)})
+			env.state = f.cur
 		}
 	}
 	old := f.cur.clone()
@@ -515,7 +526,7 @@ func mentionsActivationLocal(e *Expr) bool {
 	}
 	if e.Op == "call" {
 		switch e.Name {
-		case "acqof", "acq", "ownsends", "ownsendchan", "ownsendval", "ownsent", "ownspawns", "ownspawnarg":
+		case "acqof", "acq", "ownsends", "ownsendchan", "ownsendval", "ownsent", "ownspawns", "ownspawnarg", "flag", "lastcall", "selected", "visited":
 			return true
 		}
 	}
@@ -1501,6 +1512,7 @@ func (f *Frame) lockOp(op lockOp, lockVal ssa.Value, pos token.Pos) {
 	opname := map[[2]bool]string{{true, true}: "Lock", {true, false}: "Unlock", {false, true}: "RLock", {false, false}: "RUnlock"}[[2]bool{op.write, op.acquire}]
 	if op.acquire {
 		if check {
+			f.noLockIfCallee(pos)
 			lbl := f.label("lock", field+":"+opname+":not-held")
 			f.assertObl("lock", lbl, nil, f.guard, eq(held, "0"), f.p.posString(pos))
 		}
